@@ -5,6 +5,7 @@ import (
 	"encoding/json"
 	"flag"
 	"fmt"
+	"github.com/superfly/litefs"
 	"io"
 	"log"
 	"os"
@@ -22,6 +23,8 @@ func main() {
 	// LiteFS logs through the std logger; keep it out of the way unless asked.
 	if os.Getenv("VERIF_LOG") == "" {
 		log.SetOutput(io.Discard)
+	} else if os.Getenv("VERIF_LOG") == "trace" {
+		litefs.TraceLog = log.New(os.Stderr, "TRACE ", log.Lmicroseconds)
 	}
 	switch os.Args[1] {
 	case "list":
